@@ -163,8 +163,10 @@ def make_rdms(rng, feats):
         return r.subset('subj', 'nobody')      # an object emptied by a selection without match
     if 'history' in feats:
         ops = int(rng.integers(1, 4))
-        for _ in range(ops):
+        for i_op in range(ops):
             o = gen.pick(rng, ['subset_pattern', 'reorder', 'subsample', 'sort_noreindex', 'getitem', 'subsample_pattern'])
+            if i_op == 0 and rng.integers(2):
+                o = gen.pick(rng, ['reorder', 'sort_noreindex'])   # in-place structural operations rebuild descriptors
             if o == 'subset_pattern' and r.n_cond > 3:
                 r = r.subset_pattern('cat', 0) if rng.integers(2) and sum(1 for c in r.pattern_descriptors['cat'] if c == 0) >= 2 \
                     else r.subset_pattern('index', list(r.pattern_descriptors['index'])[1:])
@@ -277,7 +279,8 @@ def compare_obj(kind, a, b, theta=None):
 
 def run_history(ctx, scratch, kind):
     rng = ctx.rng
-    feats = [f for f in ('nan', 'inf', 'unicode', 'matrix', 'none_measure', 'history', 'empty') if rng.integers(4) == 0]
+    feats = [f for f in ('nan', 'inf', 'unicode', 'matrix', 'none_measure', 'history', 'empty')
+             if rng.integers(3 if f == 'history' else 4) == 0]
     if kind == 'Result' and rng.integers(6) == 0:
         feats.append('many_models')
     if 'unicode' in feats:
@@ -396,9 +399,70 @@ def run_history(ctx, scratch, kind):
                 return
 
 
+STRUCT_OPS = ['reorder', 'sort_by', 'sort_noreindex', 'subset_pattern', 'subsample_pattern', 'getitem', 'append',
+              'ds_sort_by', 'ds_subset_obs', 'ds_subset_channel']
+
+
+def run_structural(ctx, scratch, op, k):
+    """one structural operation, then a round trip in both formats: the object produced by the operation -- with all its
+    (possibly rebuilt) descriptors -- is what comes back"""
+    rng = ctx.rng
+    if op.startswith('ds_'):
+        kind = 'Dataset'
+        d = make_dataset(rng, [])
+        if d.n_obs < 2:
+            return
+        if op == 'ds_sort_by':
+            d.sort_by('cond')
+        elif op == 'ds_subset_obs':
+            d = d.subset_obs('run', list(dict.fromkeys(d.obs_descriptors['run']))[:1])
+        else:
+            d = d.subset_channel('ch', list(d.channel_descriptors['ch'])[:max(1, d.n_channel - 1)])
+        obj = d
+    else:
+        kind = 'RDMs'
+        r = make_rdms(rng, [])
+        if op == 'reorder':
+            r.reorder([int(i) for i in rng.permutation(r.n_cond)])
+        elif op == 'sort_by':
+            r.reorder([int(i) for i in rng.permutation(r.n_cond)])
+            r.sort_by(cond='alpha')
+        elif op == 'sort_noreindex':
+            r.reorder([int(i) for i in rng.permutation(r.n_cond)])
+            r.sort_by(reindex=False, cond='alpha')
+        elif op == 'subset_pattern':
+            r = r.subset_pattern('index', list(r.pattern_descriptors['index'])[1:])
+        elif op == 'subsample_pattern':
+            idx = list(r.pattern_descriptors['index'])
+            r = r.subsample_pattern('index', [idx[0], idx[0]] + idx[1:])
+        elif op == 'getitem':
+            r = r[int(rng.integers(r.n_rdm))]
+        else:
+            r.append(r.copy())
+        obj = r
+    for ftype in ('hdf5', 'pkl'):
+        sig = dict(kind=kind, file_type=ftype, target='path', feature='after_' + op)
+        path = os.path.join(scratch, f'struct{k}.{ftype}')
+        wit = lambda **x: dict(kind=kind, op=op, file_type=ftype, **x)  # noqa: E731
+        ok, _ = ctx.guarded('roundtrip:' + kind, sig, save_obj, kind, obj, path, ftype, True, data=wit)
+        if not ok:
+            continue
+        ok, back = ctx.guarded('roundtrip:' + kind, dict(sig, what='load_raised'), load_obj, kind, path, ftype, data=wit)
+        if not ok:
+            continue
+        ctx.case('roundtrip:' + kind, sig)
+        ctx.count('structural_history_cases')
+        err = compare_obj(kind, obj, back)
+        if err:
+            ctx.fail('roundtrip:' + kind, dict(sig, what='fields_differ'), f'after {op}: loaded object differs from the saved '
+                     f'one: {err}', wit())
+
+
 def run(ctx):
     scratch = tempfile.mkdtemp(prefix='verif-c16-')
     try:
+        for k in range(ctx.n(40, 120)):
+            run_structural(ctx, scratch, STRUCT_OPS[k % len(STRUCT_OPS)], k)
         n = ctx.n(90, 400)
         for it in range(n):
             if ctx.out_of_time():
